@@ -11,6 +11,8 @@
      hlit = hdist = 0, reader = mkBR 0 0 [254;214;15] 3
    readLitDistLens = EInvalidBlock, but read_lens 258 ct 258 [] on the same bits (e = []) is
    HOk all with nth 256 (firstn 257 all) = 1.
+   The counterexample is replayed at the end of this file (cex_engine, cex_reference,
+   cex_table_check, cex_side_conditions).
    Proved here: readLitDistLens_reject_partial = the statement with the extra hypothesis
    (length clens <= 19)%nat (true in setupDynamicHeader: clens = scatter _ _ (repeat 0 19)). *)
 From Coq Require Import List NArith ZArith Bool Lia ZifyBool ZifyNat ZifyN.
@@ -596,30 +598,89 @@ Definition readLitDistLens_reject_partial_statement : Prop :=
       read_lens n ct n [] (mkbs (br_bits (rd s) ++ e) p) = HOk all s1 ->
       nth 256 (firstn nlit all) 0%nat = 0%nat.
 
-Theorem readLitDistLens_reject_partial : readLitDistLens_reject_partial_statement.
+Lemma rl_reject_top : canon_pad_statement ->
+  forall (hlit hdist : N) clens ct (b : bitrd) (h lc dc ex clcS clcL : arr) e p,
+    br_wf b -> (0 <= r_len b)%Z -> hlit <= 29 -> hdist <= 29 ->
+    Forall (fun x => (x <= 7)%nat) clens -> oversubscribed 7 clens = false ->
+    (length clens <= 19)%nat ->
+    mktrie 7 clens = Some ct -> clc_tab_ok clens clcS clcL ->
+    arr_zero h -> arr_zero lc -> arr_zero dc -> arr_zero ex ->
+    forall res,
+    rl_loop small_fuel clcS clcL (Z.of_N (litTableSize + hlit)) (Z.of_N (litLen + hdist + 1))
+            (mkRL b h lc dc ex 0%Z (-1)%Z false) = res ->
+    snd res = EInvalidBlock ->
+    forall all s1,
+      read_lens (N.to_nat hlit + 257 + (N.to_nat hdist + 1)) ct
+                (N.to_nat hlit + 257 + (N.to_nat hdist + 1)) [] (mkbs (br_bits b ++ e) p) = HOk all s1 ->
+      nth 256 (firstn (N.to_nat hlit + 257) all) 0%nat = 0%nat.
 Proof.
-  intros Hpad s hlit hdist clens ct e p Hwf H0 Hhl Hhd HF Hov Hl19 Hmk Hok Zh Zl Zd Ze Herr.
-  cbn zeta. intros all s1 Hr.
-  unfold readLitDistLens in Herr.
-  set (nlit := (N.to_nat hlit + 257)%nat) in *.
-  set (ndist := (N.to_nat hdist + 1)%nat) in *.
-  assert (Hd : dims_ok nlit ndist) by (unfold dims_ok, nlit, ndist; lia).
-  replace (Z.of_N (litTableSize + hlit)) with (Z.of_nat nlit) in Herr by (unfold litTableSize, nlit; lia).
-  replace (Z.of_N (litLen + hdist + 1)) with (286 + Z.of_nat ndist)%Z in Herr by (unfold litLen, ndist; lia).
-  set (st0 := mkRL (rd s) (litAndDistHuff (dyn s)) (litCount (dyn s)) (distCount (dyn s))
-                   (litExpandCount (dyn s)) 0%Z (-1)%Z false) in *.
-  assert (Hinv0 : rl_inv nlit ndist st0 []).
-  { unfold rl_inv. cbn [st0 rl_curr rl_prev rl_inDist rl_h rl_lc rl_dc rl_ex length].
+  intros Hpad hlit hdist clens ct b h lc dc ex clcS clcL e p Hwf H0 Hhl Hhd HF Hov Hl19 Hmk Hok Zh Zl Zd Ze res Hres Herr all s1 Hr.
+  assert (Hd : dims_ok (N.to_nat hlit + 257) (N.to_nat hdist + 1)) by (unfold dims_ok; lia).
+  assert (Hinv0 : rl_inv (N.to_nat hlit + 257) (N.to_nat hdist + 1) (mkRL b h lc dc ex 0%Z (-1)%Z false) []).
+  { unfold rl_inv. cbn [rl_curr rl_prev rl_inDist rl_h rl_lc rl_dc rl_ex length].
     split; [lia|]. split.
     - unfold rl_pos. split; [lia|]. left. split; [lia|]. split; reflexivity.
     - apply rl_arr_init; assumption. }
-  pose proof (rl_reject Hpad nlit ndist clens ct (clcShort (dyn s)) (clcLong (dyn s)) Hd HF Hov Hl19
-                Hmk Hok small_fuel st0 [] Hwf H0 Hinv0) as Rj.
-  destruct (rl_loop small_fuel (clcShort (dyn s)) (clcLong (dyn s)) (Z.of_nat nlit)
-                    (286 + Z.of_nat ndist)%Z st0) as [st' err].
-  cbn [snd] in Herr. unfold reject_concl in Rj. cbn [snd] in Rj.
-  apply (Rj Herr (nlit + ndist)%nat e p all s1); [cbn [length]; lia|].
+  pose proof (rl_reject Hpad _ _ clens ct clcS clcL Hd HF Hov Hl19
+                Hmk Hok small_fuel (mkRL b h lc dc ex 0%Z (-1)%Z false) [] Hwf H0 Hinv0) as Rj.
+  replace (Z.of_nat (N.to_nat hlit + 257)) with (Z.of_N (litTableSize + hlit)) in Rj by (unfold litTableSize; lia).
+  replace (286 + Z.of_nat (N.to_nat hdist + 1))%Z with (Z.of_N (litLen + hdist + 1)) in Rj by (unfold litLen; lia).
+  rewrite Hres in Rj. unfold reject_concl in Rj.
+  apply (Rj Herr _ e p all s1 (le_n _)).
   cbn [length rev]. rewrite Nat.sub_0_r. exact Hr.
 Qed.
 
+Theorem readLitDistLens_reject_partial : readLitDistLens_reject_partial_statement.
+Proof.
+  intros Hpad s hlit hdist clens ct e p Hwf H0 Hhl Hhd HF Hov Hl19 Hmk Hok Zh Zl Zd Ze.
+  unfold readLitDistLens.
+  pose proof (rl_reject_top Hpad hlit hdist clens ct (rd s) _ _ _ _ _ _ e p Hwf H0 Hhl Hhd HF Hov Hl19 Hmk Hok
+                Zh Zl Zd Ze _ eq_refl) as A.
+  destruct (rl_loop small_fuel (clcShort (dyn s)) (clcLong (dyn s)) (Z.of_N (litTableSize + hlit))
+                    (Z.of_N (litLen + hdist + 1)) _) as [st' err].
+  exact A.
+Qed.
+
 Print Assumptions readLitDistLens_reject_partial.
+
+(* ---------------------------------------------------------------- the counterexample to
+   readLitDistLens_reject_statement (no bound on length clens), replayed by computation.
+   cex_table_check: the table decodes `canon cex_clens` exactly on every 16-bit pattern (clc_decode
+   looks at the low 16 bits only: EngineRefineHeaderDec.clc_look_low16), i.e. clc_tab_ok holds. *)
+Definition cex_clens : list nat := [2;2;0;0;0;0;0;0;0;0;0;0;0;0;0;0;0;0;0;1]%nat.
+Definition cex_entry (v : N) : N :=
+  if v mod 2 =? 0 then 2067 else if v mod 4 =? 1 then 4096 else 4097.
+Definition cex_clcS : arr := forN 0 1024 (fun v t => aset t v (cex_entry v)) aempty.
+Definition cex_s0 : Engine.inflate :=
+  mkInflate (mkBR 0 0%Z [254;214;15] 3) false ov0 (mkTB aempty aempty aempty aempty) 0 0 0 0 []
+            (mkDyn aempty cex_clcS aempty aempty aempty aempty aempty aempty aempty) 0%Z.
+
+Lemma cex_side_conditions :
+  Forall (fun x => (x <= 7)%nat) cex_clens /\ oversubscribed 7 cex_clens = false /\
+  length cex_clens = 20%nat /\ canon cex_clens = [(0%nat, 2%nat, 2); (1%nat, 2%nat, 3); (19%nat, 1%nat, 0)].
+Proof.
+  split; [unfold cex_clens; repeat constructor|]. split; [reflexivity|]. split; reflexivity.
+Qed.
+
+Definition cex_matchb (v : N) (e : nat * nat * N) : bool :=
+  let '(_, len, c) := e in N.land v (N.ones (N.of_nat len)) =? rcode len c.
+
+Lemma cex_table_check :
+  forallb (fun v =>
+    match find (cex_matchb v) (canon cex_clens), clc_look cex_clcS aempty v with
+    | Some (d, len, _), Some (sym, cnt) => (sym =? N.of_nat d) && (cnt =? N.of_nat len)
+    | _, _ => false
+    end) (seqN 0 (N.to_nat 65536)) = true.
+Proof. vm_compute. reflexivity. Qed.
+
+Lemma cex_engine : snd (readLitDistLens cex_s0 0 0) = EInvalidBlock.
+Proof. vm_compute. reflexivity. Qed.
+
+Lemma cex_reference : exists ct all s1,
+  mktrie 7 cex_clens = Some ct /\
+  read_lens 258 ct 258 [] (mkbs (br_bits (rd cex_s0) ++ []) 0) = HOk all s1 /\
+  nth 256 (firstn 257 all) 0%nat = 1%nat.
+Proof.
+  eexists. eexists. eexists. split; [vm_compute; reflexivity|].
+  split; [vm_compute; reflexivity|]. vm_compute. reflexivity.
+Qed.
